@@ -538,6 +538,12 @@ func run(r *harness.Run) {
 		}
 		flat := "{" + strings.Join(parts, ",") + "}"
 		allStarts = append(allStarts, flat, `{"type":"m.room.power_levels","content":{"users":`+flat+`,"ban":50}}`)
+		// sorted at the top, every value a small object whose own keys are out of order
+		var nparts []string
+		for j := 0; j < n; j++ {
+			nparts = append(nparts, fmt.Sprintf(`"m%05d":{"y":%d,"x":1}`, j, j))
+		}
+		allStarts = append(allStarts, "{"+strings.Join(nparts, ",")+"}")
 	}
 	wideOps := []string{"sign0", "sign2", "pres1", "pres3"}
 	r.Count("start_objects", int64(len(allStarts)))
